@@ -12,9 +12,9 @@ inline bool chaseIndices(RowMajorMatrixType::InnerIterator& index1_iter,
     if(index1 == index2) return true;
 
     if(index1 < index2)
-        for(;InnerQuantumState(index1_iter.index())<index2 && index1_iter; ++index1_iter);
+        for(;index1_iter && InnerQuantumState(index1_iter.index())<index2; ++index1_iter);
     else
-        for(;InnerQuantumState(index2_iter.index())<index1 && index2_iter; ++index2_iter);
+        for(;index2_iter && InnerQuantumState(index2_iter.index())<index1; ++index2_iter);
 
     return false;
 }
